@@ -1004,6 +1004,8 @@ class Node:
 
         self.logger.debug(f"{conn} application {app} expects answer "
                           f"{hex(message.header.hop_by_hop_identifier)}")
+        # the transaction is complete, stop tracking it
+        del self._app_waiting_answer[message_id]
         app.receive_answer(message)
 
     def _reconnect_peers(self):
